@@ -177,6 +177,7 @@ func runTask(eng *Engine, t *Task, solverBin string, timeout time.Duration, unwi
 	in := &Interp{eng: eng, prog: eng.prog, tf: NewTF(), sol: sol, regIdx: map[*ssa.Function]map[ssa.Value]int{}, intrC: map[*ssa.Function]intrinsicFn{},
 		unwind: unwind, presets: t.Presets, funcs: map[*ssa.Function]bool{}, maxConcr: 64, verbose: verbose, stubs: t.Stubs, sampleOK: sampleOK, second: second,
 		stepCap: 50_000_000, opts: map[string]bool{}}
+	in.slowMs = envInt("VERIF_SLOWQ", 0)
 	if verbose || os.Getenv("VERIF_FORKSITES") != "" {
 		in.forkSites = map[string]int{}
 		defer func() {
